@@ -235,3 +235,11 @@ shared_hdr_has(const json_t *jwe, const char *name)
     hdr = jose_jwe_hdr(jwe, NULL);
     return !hdr || json_object_get(hdr, name);
 }
+
+bool
+no_encrypted_key(const json_t *rcp)
+{
+    const json_t *ek = json_object_get(rcp, "encrypted_key");
+
+    return !ek || (json_is_string(ek) && json_string_length(ek) == 0);
+}
